@@ -71,6 +71,31 @@ fn subsets(ctx: &mut Ctx) {
             ctx.expect_eq("supports.load.subset", || format!("supports_* after loading a {} written with supports {:03b}", what(), subset), &guard(|| supports(&loaded)), &want);
             ctx.checks += 1;
             if loaded != bv { ctx.violation("supports.load.ne", format!("loaded {} (supports {:03b}) is not == to what was written", what(), subset)); }
+            // enable_pred_succ() as the first enabler: whatever was present, predecessor/successor must work afterwards
+            // (it has to bring rank and select along), and enabling the rest must still give the fully enabled original.
+            {
+                let mut cur = loaded.clone();
+                match guard(|| { cur.enable_pred_succ(); (cur.supports_pred_succ(), cur.supports_rank(), cur.supports_select(), cur.supports_select_zero()) }) {
+                    Ok(got) => {
+                        ctx.checks += 1;
+                        let _ = want;
+                        if !got.0 { ctx.violation("supports.pred_succ_first.subset", format!("{} written with supports {:03b}: after enable_pred_succ() (pred_succ, rank, select, select_zero) = {:?}", what(), subset, got)); }
+                        for &a in around.iter().take(12) {
+                            let p = m.ones.partition_point(|x| *x <= a);
+                            let want_pred = if p == 0 { None } else { Some((p - 1, m.ones[p - 1])) };
+                            let q = m.ones.partition_point(|x| *x < a);
+                            let want_succ = m.ones.get(q).map(|x| (q, *x));
+                            ctx.expect_eq("supports.pred_succ_first.predecessor", || format!("predecessor({}) right after enable_pred_succ() on a {} written with supports {:03b}", a, what(), subset), &guard(|| cur.predecessor(a).next()), &want_pred);
+                            ctx.expect_eq("supports.pred_succ_first.successor", || format!("successor({}) right after enable_pred_succ() on a {} written with supports {:03b}", a, what(), subset), &guard(|| cur.successor(a).next()), &want_succ);
+                            ctx.expect_eq("supports.pred_succ_first.rank", || format!("rank({}) right after enable_pred_succ() on a {} written with supports {:03b}", a, what(), subset), &guard(|| cur.rank(a)), &q);
+                        }
+                        let _ = guard(|| { cur.enable_select_zero(); cur.enable_rank(); cur.enable_select(); });
+                        ctx.checks += 1;
+                        if cur != full || ser(&cur) != full_bytes { ctx.violation("supports.pred_succ_first.rebuilt", format!("{} written with supports {:03b}: enable_pred_succ() first, then the rest: not the fully enabled original", what(), subset)); }
+                    },
+                    Err(p) => ctx.violation("supports.enable!panic", format!("{}: enable_pred_succ() first: {}", what(), p)),
+                }
+            }
             // Every order of enabling the rest, with a serialize/load between any two steps (chosen by `cut`).
             for (oi, order) in ORDERS.iter().enumerate() {
                 if (oi + subset + c) % 2 == 1 && ctx.quick() { continue; }
@@ -274,6 +299,36 @@ fn skip(ctx: &mut Ctx) {
         }
         ctx.case(hash64(&[3, hash_bytes(it.name.as_bytes())]), true);
         ctx.sample(|| format!("skip: optional holding {} ({} elements), plain and nested, followed by a sentinel", it.name, elements));
+    }
+    // Optional structures written by the library itself (its own size element), whatever they contain: structures whose
+    // parts differ in size (a wavelet matrix with skewed levels), stripped or fully supported bitvectors, compressed vectors.
+    for k in 0..ctx.size(6, 40) {
+        if !ctx.mine(1000 + k as u64) { continue; }
+        if !ctx.begin_case() { continue; }
+        let mut rng = ctx.rng(0xC19_700 + k as u64);
+        let len = if cfg!(miri) { 40 } else { 1500 + rng.below(4000) };
+        let skewed: Vec<u64> = (0..len).map(|j| if j == len / 3 { 5 } else if rng.chance(1, 40) { 3 } else { rng.below(3) as u64 }).collect();
+        let bits: Vec<bool> = (0..(if cfg!(miri) { 100 } else { 9000 })).map(|_| rng.chance(1, 5)).collect();
+        let m = SetModel::from_bits(&bits);
+        let mut full = mk::bv_set_bit(&bits);
+        mk::enable_all(&mut full);
+        let streams: Vec<(&str, Vec<u8>)> = vec![
+            ("Option<WaveletMatrix> (skewed levels)", ser(&Some(WaveletMatrix::from(skewed.clone())))),
+            ("Option<WMCore> (skewed levels)", ser(&Some(WMCore::from(skewed.clone())))),
+            ("Option<BitVector> (all supports)", ser(&Some(full))),
+            ("Option<BitVector> (no supports)", ser(&Some(mk::bv_set_bit(&bits)))),
+            ("Option<SparseVector>", ser(&Some(mk::sparse_set(m.n, &m.ones).unwrap()))),
+            ("Option<RLVector>", ser(&Some(mk::rl_runs(m.n, &m.runs()).unwrap()))),
+            ("Option<Option<WaveletMatrix>>", ser(&Some(Some(WaveletMatrix::from(skewed.clone()))))),
+        ];
+        for (label, body) in streams.iter() {
+            let mut stream = body.clone();
+            stream.extend_from_slice(&0x5E47_1AE1u64.to_le_bytes());
+            let r = guard(|| { let mut r: &[u8] = &stream; let ok = serialize::skip_option(&mut r).is_ok(); let next = u64::load(&mut r).ok(); (ok, next, r.len()) });
+            ctx.expect_eq("skip_option.library_written", || format!("skip_option over a library-written {} ({} bytes), then the next element", label, body.len()), &r, &(true, Some(0x5E47_1AE1u64), 0));
+        }
+        ctx.case(hash64(&[5, k as u64, len as u64]), true);
+        ctx.sample(|| format!("skip: library-written optional structures (wavelet matrix of {} skewed items, bitvectors, sparse, run-length, nested) followed by a sentinel", len));
     }
     if ctx.mine(0) && ctx.begin_case() {
         // absent_option writes exactly one zero element, which loads as None and is skipped as one element.
